@@ -50,6 +50,10 @@ bool JsonEq(const UniValue& a, const UniValue& b);
 std::string JsonDiff(const UniValue& exp, const UniValue& have, const std::string& path = "");
 void Emit(const UniValue& o);   // prints one line
 
+// fork(): returns true in the child; in the parent waits for the child, reports an abnormal end as an abort line, returns false.
+bool ForkChild(size_t test_index);
+[[noreturn]] void ExitChild();
+
 // Generic replay loop over tests {init, steps:[{a, r, exp}]}.
 // make(init) builds a fresh world; apply(world, action) -> result; project(world) -> JSON compared with exp
 // (only keys present in exp are compared, recursively). r == null means "no predicted result".
@@ -58,11 +62,14 @@ int ReplayMain(const std::string& path,
                const std::function<std::unique_ptr<World>(const UniValue& init)>& make,
                const std::function<UniValue(World&, const UniValue& action)>& apply,
                const std::function<UniValue(World&)>& project,
-               const std::vector<std::string>& internal_keys = {})
+               const std::vector<std::string>& internal_keys = {}, bool fork_per_test = false)
 {
     InstallAbortHandlers();
     ForEachLine(path, [&](size_t n, const UniValue& t) {
         R().cur_test = n; R().cur_step = 0; R().cur_action = UniValue::VNULL;
+        // fork_per_test: the test runs in a forked child that inherits whatever expensive pristine state the adapter built
+        // before calling ReplayMain (make() then only wraps it). The child prints its own lines and a summary and _exits.
+        if (fork_per_test && !ForkChild(n)) return;
         auto w = make(t["init"]);
         const UniValue& st = t["steps"];
         for (size_t i = 0; i < st.size(); ++i) {
@@ -72,9 +79,11 @@ int ReplayMain(const std::string& path,
             try { res = apply(*w, st[i]["a"]); }
             catch (const std::exception& e) { why = std::string("exception: ") + e.what(); }
             ++R().steps;
+            std::string result_dev;
             if (why.empty() && st[i].exists("r") && !st[i]["r"].isNull()) {
                 std::string d = JsonDiff(st[i]["r"], res, "result");
-                if (!d.empty()) why = d;
+                // "@result" among the internal keys: a differing call result is a deviation, not a mismatch
+                if (!d.empty()) { if (std::find(internal_keys.begin(), internal_keys.end(), "@result") != internal_keys.end()) result_dev = d; else why = d; }
             }
             if (why.empty() && st[i].exists("exp") && !st[i]["exp"].isNull()) {
                 // Observable keys first: a difference there is a mismatch. A difference only in `internal_keys`
@@ -92,12 +101,14 @@ int ReplayMain(const std::string& path,
                         if (d.empty()) continue;
                         if (internal) { if (internal_diff.empty()) internal_diff = d; } else { why = d; break; }
                     }
-                    if (why.empty() && !internal_diff.empty()) { R().Deviation(st[i]["a"], internal_diff, have); break; }
+                    if (why.empty() && internal_diff.empty() && !result_dev.empty()) internal_diff = result_dev;
+                    if (why.empty() && !internal_diff.empty()) { have.pushKV("@result", res); R().Deviation(st[i]["a"], internal_diff, have); break; }
                 }
             }
             if (!why.empty()) { R().Mismatch(st[i]["a"], why); break; }
         }
         ++R().tests;
+        if (fork_per_test) { R().Summary(); std::cout.flush(); ExitChild(); }
     });
     R().Summary();
     return 0;
